@@ -7,6 +7,7 @@ import LZ4V.Judge.Cli
 import LZ4V.Judge.WR
 import LZ4V.Judge.Sparse
 import LZ4V.Judge.FastR
+import LZ4V.Judge.FrameDS
 import Std.Data.HashMap
 /-!
 `lz4vmodel judge <casefile> <faildir>` : walk the case records written by a harness, run the specification / model
@@ -28,6 +29,7 @@ def dispatch (blobs : Std.HashMap Nat ByteArray) (r : Rec) : Verdict :=
   | 9 => (let x := judgeWR r; { fails := x.1, tags := x.2 })
   | 10 => (let x := judgeSparse r; { fails := x.1, tags := x.2 })
   | 11 => (let x := judgeFastResetHistory r; { fails := x.1, tags := x.2 })
+  | 12 => (let x := judgeFrameTrace blobs r; { fails := x.1, tags := x.2 })
   | 100 => {}
   | _ => { fails := [("unknown_op", s!"op={r.op}")] }
 
@@ -64,6 +66,8 @@ def judgeFile (path faildir : String) : IO UInt32 := do
     IO.println s!"FAIL case=0 op=0 kind=malformed_case_file file={path} detail=stopped at byte {pos} of {b.size}"
     nf := nf + 1
   for (k, c) in tags.toList do IO.println s!"TAG {k} {c}"
+  if (← IO.getEnv "LZ4V_SIGS").isSome then
+    for (k, _) in sigs.toList do IO.println s!"SIG {k}"
   IO.println s!"DISTINCT {sigs.size}"
   IO.println s!"DONE records={n} fails={nf}"
   return (if nf == 0 then 0 else 1)
